@@ -692,9 +692,9 @@ def reserve_shape(ctx, RM, o):
             hit_ = P.lookup(RM, d.func.attr)
             if hit_ and hit_[1] == 'method':
                 rets_ = [x for x in ast.walk(hit_[2]) if isinstance(x, ast.Return) and x.value is not None]
-                hp_ = [a_.arg for a_ in hit_[2].args.args][1:]
-                if len(rets_) == 1 and len(hp_) == len(d.args):
-                    d = subst(rets_[0].value, dict(zip(hp_, d.args)))
+                bnd_ = dv.bind_method_call(P, RM, d)          # (plain or static helper)
+                if len(rets_) == 1 and bnd_ is not None:
+                    d = subst(rets_[0].value, bnd_)
         if isinstance(d, ast.DictComp) and len(d.generators) == 1 and ast.unparse(d.generators[0].iter) == f'{pn}.items()' and len(d.generators[0].ifs) == 1:
             tg = d.generators[0].target
             names = [e.id for e in tg.elts] if isinstance(tg, ast.Tuple) else []
